@@ -232,6 +232,8 @@ OneResult runOne(RK kind, const Delivery& d, const std::string& wire, Transcript
       g_stats.maxv("alloc.max_request.max", r.maxRequest);
     }
     // C15: nesting and stack
+    if (r.code == "TooDeep")
+      count("fault.nesting_limit_hit");
     if (r.code == "Ok" && r.nesting > size_t(effectiveLimit(d)))
       violate("C15:nesting-above-limit", "Ok with nesting() " + std::to_string(r.nesting) + " above the limit " +
                                              std::to_string(effectiveLimit(d)));
@@ -1554,6 +1556,7 @@ Plan generate(const std::string& mode, uint64_t seed, uint64_t run) {
     op.set("kinds", kj[r.below(6)]);
     p.ops.push_back(op);
   } else if (mode == "deep") {
+    // (counted at execution: see code.TooDeep / probe counters)
     // hostile peer: nesting well beyond the limit, or exactly at / one above it
     int L = int(r.chance(1, 2) ? r.below(13) : (r.chance(1, 2) ? 255 : r.below(256)));
     unsigned sel = unsigned(r.below(100));
